@@ -9,6 +9,7 @@ import (
 	"fmt"
 	"os"
 	"runtime"
+	"strings"
 	"time"
 )
 
@@ -88,6 +89,14 @@ func runOne(b *BatchResult, a *runArgs, run uint64) {
 			p = wgParams{nRandom: 48, tinyPerms: true}
 		}
 		wgRunOne(b, a.Property, a.Seed, run, p)
+	case "rendersim":
+		n := 6
+		if a.Tier == "thorough" {
+			n = 40
+		}
+		renderRunOne(b, a.Property, a.Seed, run, n)
+	case "puresim":
+		pureRunOne(b, a.Property, a.Seed, run, a.Race)
 	case "mergesim":
 		n := 6
 		if a.Tier == "thorough" {
@@ -168,8 +177,20 @@ func replayOnce(v *Violation) ([]mismatch, string) {
 }
 
 func replayViolation(v *Violation) *replayResult {
+	off := raceLogSize()
 	mm, fp := replayOnce(v)
 	res := &replayResult{Fingerprint: fp}
+	if v.RaceReport != "" {
+		// a race violation reproduces iff the race detector reports again
+		// (fresh process: reports are deduplicated per process)
+		rep := raceLogSince(off)
+		if strings.Contains(rep, "DATA RACE") {
+			res.Reproduced = true
+			res.Class = v.Class
+			res.Detail = firstRaceFrames(rep)
+		}
+		return res
+	}
 	for _, x := range mm {
 		res.AllClasses = append(res.AllClasses, x.class)
 		if x.class == v.Class && !res.Reproduced {
